@@ -45,7 +45,7 @@ func main() {
 	fs.StringVar(&o.fn, "fn", "", "function name")
 	fs.BoolVar(&o.dump, "dump", false, "dump queries of failing obligations")
 	fs.DurationVar(&o.timeout, "timeout", 0, "per-query timeout")
-	fs.IntVar(&o.jobs, "j", 6, "parallel queries (each races three solvers)")
+	fs.IntVar(&o.jobs, "j", 8, "parallel queries (each races three solvers)")
 	fs.BoolVar(&o.noCache, "no-cache", false, "ignore the result cache")
 	fs.BoolVar(&o.panics, "panics", false, "generate panic-freedom obligations")
 	fs.BoolVar(&o.verbose, "v", false, "verbose")
@@ -66,9 +66,9 @@ func main() {
 	}
 	if o.timeout == 0 {
 		if o.tier == "thorough" {
-			o.timeout = 60 * time.Second
+			o.timeout = 120 * time.Second
 		} else {
-			o.timeout = 10 * time.Second
+			o.timeout = 30 * time.Second
 		}
 	}
 	switch cmd {
